@@ -17,13 +17,13 @@ from rv import atoms as AT
 from rv import common as C
 from rv import dromodel as DR
 
-N_CASES = {'quick': 700, 'thorough': 14000}
+N_CASES = {'quick': 2100, 'thorough': 14000}
 TIMEOUT = {'quick': 1500, 'thorough': 6 * 3600}
 ANCHORS = ['lp:Vars.get', 'lp:DecVar.get', 'lp:DecRule.get', 'ro:Model.get', 'dro:Model.get',
            'lp:Affine.__call__', 'lp:Convex.__call__', 'lp:RoAffine.__call__',
            'lp:DecAffine.__call__', 'lp:DecConvex.__call__', 'lp:DecRoAffine.__call__',
            'subroutines:event_dict', 'dro:Model.rule_var']
-FLOORS = {'judged': {'quick': 500, 'thorough': 10000}, 'nontrivial': 100,
+FLOORS = {'judged': {'quick': 1500, 'thorough': 10000}, 'nontrivial': 100,
           'counters': {'queries_compared': 5000}}
 RULE = ('pinned ro models (variables of shape 0-d..3-d, 1-2 decision rules with random masks) '
         'and pinned dro models (2-5 scenarios with int/str/custom labels, 1-3 variables with '
